@@ -8,12 +8,14 @@ import PtModel.Lower
 import PtModel.Pad
 import PtModel.EinsumLower
 import PtModel.AdvIndex
+import PtModel.Binop
 import PtModel.Spec
 import PtModel.Affine
 import PtModel.Names
 import PtModel.Shape
 import PtModel.HandleKernel
 import PtModel.HandleRaise
+import PtModel.HandlePyGen
 import PtModel.HandleDist
 import PtModel.HandleEq
 import PtModel.HandleMapper
@@ -75,6 +77,32 @@ def parseContig : Sx → Option Bool
   | .atom "N" => some false
   | _ => none
 
+def binOpOfName : String → Option Raise.BinOp
+  | "ADD" => some .add | "SUB" => some .sub | "MULT" => some .mult
+  | "TRUEDIV" => some .truediv | "FLOORDIV" => some .floordiv | "MOD" => some .mod
+  | "POWER" => some .power | "BITWISE_AND" => some .bitwiseAnd | "BITWISE_OR" => some .bitwiseOr
+  | "BITWISE_XOR" => some .bitwiseXor | "LOGICAL_AND" => some .logicalAnd
+  | "LOGICAL_OR" => some .logicalOr
+  | "EQUAL" => some (.cmp .eq) | "NOT_EQUAL" => some (.cmp .ne) | "LESS" => some (.cmp .lt)
+  | "LESS_EQUAL" => some (.cmp .le) | "GREATER" => some (.cmp .gt)
+  | "GREATER_EQUAL" => some (.cmp .ge)
+  | _ => none
+
+/-- `(arr shape dtype [vals])` | `(np lit dtype)` | `(py lit)` -/
+def parseBOpd : Sx → Option (BOpd × Option (Arr Val))
+  | .list [.atom "arr", s, .atom dt] => do some (.arr (← s.asNats?) dt, none)
+  | .list [.atom "arr", s, .atom dt, vals] => do
+    let a ← parseArr s vals
+    some (.arr a.shape dt, some a)
+  | .list [.atom "np", c, .atom dt] => do some (.npScalar (← SExpr.ofSx c) dt, none)
+  | .list [.atom "py", c] => do some (.pyScalar (← SExpr.ofSx c), none)
+  | _ => none
+
+def parseFlag : Sx → Option Bool
+  | .atom "#t" => some true
+  | .atom "#f" => some false
+  | _ => none
+
 def handleLower : List Sx → Option String
   | [.atom "roll", shift, axis, nd, n] => do
     some (Lower.roll (← shift.asInt?) (← axis.asNat?) (← nd.asNat?) (← n.asNat?)).toSx.toStr
@@ -89,6 +117,23 @@ def handleLower : List Sx → Option String
     match Lower.reshape (← parseOrder o) (← old.asNats?) (← new.asNats?) with
     | some e => some e.toSx.toStr
     | none => some "none"
+  | [.atom "binop", .atom op, o1, o2, .atom res, cast, pow] => do
+    -- (lower binop ADD (arr (2 3) int64) (py (rat 5 2)) float64 #t #f)
+    match Lower.binop (← binOpOfName op) (← parseBOpd o1).1 (← parseBOpd o2).1 res (← parseFlag cast)
+        (← parseFlag pow) with
+    | some (_, e) => some e.toSx.toStr
+    | none => some "none"
+  | [.atom "where", o1, o2, o3] => do
+    match Lower.where_ (← parseBOpd o1).1 (← parseBOpd o2).1 (← parseBOpd o3).1 with
+    | some (_, e) => some e.toSx.toStr
+    | none => some "none"
+  | [.atom "neg", rank] => do some (Lower.negExpr (← rank.asNat?)).toSx.toStr
+  | [.atom "not", rank] => do some (Lower.notExpr (← rank.asNat?)).toSx.toStr
+  | [.atom "elemwise", .atom f, rank, .list args] => do
+    let as ← args.mapM fun
+      | .atom "arr" => some none
+      | x => (SExpr.ofSx x).map some
+    some (Lower.elemwiseCall f (← rank.asNat?) as).toSx.toStr
   | [.atom "advindex", c, .list ixs, shape] => do
     -- (lower advindex C|N ((int k)|(slice start stop step)|(arr shape [nonneg]) …) shape)
     -- `?` instead of C|N: the model decides contiguity itself (`_index_into`)
@@ -148,6 +193,20 @@ def handleSpec : List Sx → Option String
     some (showArr (Spec.concatenate (← axis.asNat?) as .undef))
   | [.atom "basic", .list ix, shp, vals] => do
     some (showArr (Spec.basicIndex (← ix.mapM parseBIdx) (← parseArr shp vals)))
+  | [.atom "binop", .atom op, o1, o2, .atom res, cast, pow] => do
+    let (a1', v1) ← parseBOpd o1
+    let (a2', v2) ← parseBOpd o2
+    let bop ← binOpOfName op
+    let a1 := if Lower.isLogical bop then Lower.logicalOpd a1' else a1'
+    let a2 := if Lower.isLogical bop then Lower.logicalOpd a2' else a2'
+    let r ← ptBroadcast [Lower.opdShape a1, Lower.opdShape a2]
+    some (showArr (Spec.binopV bop a1 a2 v1 v2 r res (← parseFlag cast) (← parseFlag pow)))
+  | [.atom "where", o1, o2, o3] => do
+    let (a1, v1) ← parseBOpd o1
+    let (a2, v2) ← parseBOpd o2
+    let (a3, v3) ← parseBOpd o3
+    let r ← ptBroadcast [Lower.opdShape a1, Lower.opdShape a2, Lower.opdShape a3]
+    some (showArr (Spec.whereV a1 a2 a3 v1 v2 v3 r))
   | [.atom "advindex", c, .list ixs, shp, vals] => do
     -- (spec advindex C|N ((int k)|(slice st sp step)|(arr shape vals) …) shape vals)
     let a ← parseArr shp vals
@@ -274,6 +333,10 @@ def handle (q : Sx) : String :=
      | none => "err:parse")
   | .list (.atom "raise" :: args) =>
     (match handleRaise args with
+     | some r => "ok " ++ r
+     | none => "err:parse")
+  | .list (.atom "pygen" :: args) =>
+    (match handlePyGen args with
      | some r => "ok " ++ r
      | none => "err:parse")
   | .list (.atom "kernel" :: args) =>
